@@ -137,6 +137,10 @@ type Service struct {
 	// by the cluster.
 	highWatermark atomic.Uint64
 
+	// unsent is an event which a leader loop read from the FIFO, but had not sent when it
+	// was stopped. Only leader loops touch it, and they never run concurrently.
+	unsent *Event
+
 	// highWatermarkInterval is the interval at which the high watermark is written to the store.
 	// This is used to ensure that the high watermark is written periodically,
 	highWatermarkInterval time.Duration
@@ -516,79 +520,91 @@ func (s *Service) leaderLoop() (chan struct{}, chan struct{}) {
 		}()
 
 		for {
-			select {
-			case <-stop:
-				return
-
-			case ev := <-s.fifo.C:
-				if ev == nil {
+			// An event a previous leader loop of this node took from the FIFO but did
+			// not send goes first: the FIFO does not emit an event twice.
+			ev := s.unsent
+			if ev == nil {
+				select {
+				case <-stop:
 					return
+				case ev = <-s.fifo.C:
 				}
-				if ev.Index <= s.highWatermark.Load() {
-					// High watermark has advanced since we read this event from the FIFO.
-					// This could happen on followers if the Leader has advanced the HWM
-					// but this node hasn't even had the event generated by its underlying
-					// database yet.
-					stats.Add(numHWMIgnored, 1)
-					vhook.Trace(s.nodeID, "cdc.take", "key", ev.Index, "skipped", true)
-					continue
+			} else {
+				select {
+				case <-stop:
+					return
+				default:
 				}
-				vhook.Trace(s.nodeID, "cdc.take", "key", ev.Index, "skipped", false)
+				s.unsent = nil
+			}
+			if ev == nil {
+				return
+			}
+			if ev.Index <= s.highWatermark.Load() {
+				// High watermark has advanced since we read this event from the FIFO.
+				// This could happen on followers if the Leader has advanced the HWM
+				// but this node hasn't even had the event generated by its underlying
+				// database yet.
+				stats.Add(numHWMIgnored, 1)
+				vhook.Trace(s.nodeID, "cdc.take", "key", ev.Index, "skipped", true)
+				continue
+			}
+			vhook.Trace(s.nodeID, "cdc.take", "key", ev.Index, "skipped", false)
 
-				// Decompress the data read from FIFO into a byte slice. We need to do this
-				// so the sink can handle the request properly.
-				decompressed, err := flate.Decompress(ev.Data)
-				if err != nil {
-					s.logger.Printf("error decompressing data for batch from FIFO: %v", err)
-					continue
+			// Decompress the data read from FIFO into a byte slice. We need to do this
+			// so the sink can handle the request properly.
+			decompressed, err := flate.Decompress(ev.Data)
+			if err != nil {
+				s.logger.Printf("error decompressing data for batch from FIFO: %v", err)
+				continue
+			}
+
+			nAttempts := 0
+			retryDelay := s.transmitMinBackoff
+			sentOK := false
+			for {
+				nAttempts++
+
+				stats.Add(numBytesTx, int64(len(decompressed)))
+				_, err := s.sink.Write(decompressed)
+				if err == nil {
+					sentOK = true
+					break
+				}
+				stats.Add(numEventTxFailed, 1)
+				vhook.Trace(s.nodeID, "cdc.sent", "key", ev.Index, "ok", false, "attempt", nAttempts)
+
+				if s.transmitMaxRetries != retryForever && nAttempts == s.transmitMaxRetries {
+					s.logger.Printf("failed to send request to endpoint after %d retries, last error: %v", nAttempts, err)
+					stats.Add(numDroppedFailedToSend, 1)
+					break
 				}
 
-				nAttempts := 0
-				retryDelay := s.transmitMinBackoff
-				sentOK := false
-				for {
-					nAttempts++
-
-					stats.Add(numBytesTx, int64(len(decompressed)))
-					_, err := s.sink.Write(decompressed)
-					if err == nil {
-						sentOK = true
-						break
+				// OK, need to prep for a retry.
+				if s.transmitRetryPolicy == ExponentialRetryPolicy {
+					retryDelay *= 2
+					if retryDelay > s.transmitMaxBackoff {
+						retryDelay = s.transmitMaxBackoff
 					}
-					stats.Add(numEventTxFailed, 1)
-					vhook.Trace(s.nodeID, "cdc.sent", "key", ev.Index, "ok", false, "attempt", nAttempts)
-
-					if s.transmitMaxRetries != retryForever && nAttempts == s.transmitMaxRetries {
-						s.logger.Printf("failed to send request to endpoint after %d retries, last error: %v", nAttempts, err)
-						stats.Add(numDroppedFailedToSend, 1)
-						break
-					}
-
-					// OK, need to prep for a retry.
-					if s.transmitRetryPolicy == ExponentialRetryPolicy {
-						retryDelay *= 2
-						if retryDelay > s.transmitMaxBackoff {
-							retryDelay = s.transmitMaxBackoff
-						}
-					}
-					stats.Add(numRetries, 1)
-					s.endpointRetries.Add(1)
-
-					// Sleep, but detect any shutdown request while sleeping.
-					t := time.NewTimer(retryDelay)
-					select {
-					case <-stop:
-						t.Stop()
-						return
-					case <-t.C:
-					}
 				}
-				if sentOK {
-					s.highWatermark.Store(ev.Index)
-					stats.Add(numEventsTxOK, 1)
-					vhook.Trace(s.nodeID, "cdc.sent", "key", ev.Index, "ok", true, "attempt", nAttempts)
-					vhook.Trace(s.nodeID, "cdc.hwm", "v", ev.Index, "role", "leader")
+				stats.Add(numRetries, 1)
+				s.endpointRetries.Add(1)
+
+				// Sleep, but detect any shutdown request while sleeping.
+				t := time.NewTimer(retryDelay)
+				select {
+				case <-stop:
+					t.Stop()
+					s.unsent = ev
+					return
+				case <-t.C:
 				}
+			}
+			if sentOK {
+				s.highWatermark.Store(ev.Index)
+				stats.Add(numEventsTxOK, 1)
+				vhook.Trace(s.nodeID, "cdc.sent", "key", ev.Index, "ok", true, "attempt", nAttempts)
+				vhook.Trace(s.nodeID, "cdc.hwm", "v", ev.Index, "role", "leader")
 			}
 		}
 	}()
